@@ -3,6 +3,7 @@ package props
 import (
 	"encoding/json"
 	"fmt"
+	"os"
 	"testing"
 
 	"pgregory.net/rapid"
@@ -13,6 +14,7 @@ import (
 // faultOp is the trace record of an operation executed with an armed write fault.
 type faultOp struct {
 	Fault int    `json:"failwrite"`
+	Read  bool   `json:"read,omitempty"` // the Fault-th point read fails instead of the Fault-th write
 	Op    hx.NOp `json:"inop"`
 }
 
@@ -50,7 +52,13 @@ func init() {
 			var op hx.NOp
 			if json.Unmarshal(it, &fo) == nil && fo.Fault > 0 {
 				op = fo.Op
-				if _, err := nm.ApplyWithFault(fo.Op, fo.Fault); err != nil {
+				var err error
+				if fo.Read {
+					_, err = nm.ApplyWithReadFault(fo.Op, fo.Fault)
+				} else {
+					_, err = nm.ApplyWithFault(fo.Op, fo.Fault)
+				}
+				if err != nil {
 					return stepErr(i, op, err)
 				}
 			} else {
@@ -158,7 +166,7 @@ func lastInvalidStored(nm *hx.NodeMachine) int {
 
 func TestC05(t *testing.T) {
 	c := hx.NewCollector("C05", "fault_enumeration",
-		"node state machine (as C01) with failing operations at every internal stage mixed in - blocks with unknown / rejected parent, two coinbases, duplicated transaction, transactions built on an older state (the k-th transaction of a block fails after earlier ones were applied), refused pool transactions - plus injected storage write errors (the n-th write from now fails, n drawn 1..6) and follow-up operations that depend on the failed one. After every step: the model (unchanged by failed operations) equals every state and ledger observable of the running node, AND a second node opened on the reconstructed disk image answers every ledger and state query identically, holds the same pool, and SelectUtxos returns only existing unfrozen outputs once. Non-trivial = case with a failed operation or a fired write fault followed by >= 1 successful operation; distinct = hash of the trace",
+		"node state machine (as C01) with failing operations at every internal stage mixed in - blocks with unknown / rejected parent, two coinbases, duplicated transaction, transactions built on an older state (the k-th transaction of a block fails after earlier ones were applied), refused pool transactions - plus injected storage write errors (the n-th write from now fails, n drawn 1..6) and read errors (the n-th point read from now returns an I/O error, n drawn 1..32; 1 fault in 3) and follow-up operations that depend on the failed one. After every step: the model (unchanged by failed operations) equals every state and ledger observable of the running node, AND a second node opened on the reconstructed disk image answers every ledger and state query identically, holds the same pool, and SelectUtxos returns only existing unfrozen outputs once. Non-trivial = case with a failed operation or a fired write fault followed by >= 1 successful operation; distinct = hash of the trace",
 		"goleveldb on in-memory storage behaves like LevelDB (a failed write is not applied at all)", "an operation hit by an injected write error may itself report anything; memory must equal disk afterwards and the model is reconciled from the persisted pointer / pool")
 	defer c.Flush(t)
 	fs := hx.LoadFindings()
@@ -225,8 +233,18 @@ func TestC05(t *testing.T) {
 					maxN = 8
 				}
 				nth := rapid.IntRange(1, maxN).Draw(rt, "nth")
-				cs.Op(faultOp{Fault: nth, Op: op})
-				fired, aerr = nm.ApplyWithFault(op, nth)
+				// 1 fault in 3 is a READ fault (round-7 angle "error paths"): the n-th point read (Get / Has) of the operation
+				// returns an I/O error - not "not found"; an operation that swallows it or takes it for absence would leave
+				// a state that differs from the model at the pointer or from the reopened image. Not during a reopen: a
+				// node that cannot read its disk at start-up simply does not start
+				if os.Getenv("C05_NO_READ_FAULTS") != "1" && op.Op != "reopen" && rapid.IntRange(0, 2).Draw(rt, "readfault") == 0 {
+					nth = rapid.IntRange(1, 4*maxN).Draw(rt, "nthread")
+					cs.Op(faultOp{Fault: nth, Read: true, Op: op})
+					fired, aerr = nm.ApplyWithReadFault(op, nth)
+				} else {
+					cs.Op(faultOp{Fault: nth, Op: op})
+					fired, aerr = nm.ApplyWithFault(op, nth)
+				}
 			} else {
 				cs.Op(op)
 				aerr = nm.Apply(op)
